@@ -197,6 +197,27 @@ def power_case(p, res):
             Y = con(X)
             res.transitions += 1
             check_power_items(res, which, f"{cfgb},family={nm}", X, Y, tg, which)
+    # LARGE items (element counts that are not round: 5000, 4097, 3*41*41, and a round 3*64*64), batches of 4, 2-D and image-like 4-D layouts:
+    # implementations that accumulate in blocks must treat the tail like the rest; each item must also agree with the item processed alone
+    for shape in ((4, 5000), (4, 4097), (4, 3, 41, 41), (4, 3, 64, 64), (2, 2, 8193)):
+        nitem = 1
+        for d_ in shape[1:]:
+            nitem *= d_
+        fam = long_signals(cplx, n=nitem)
+        rows = [fam["multitone"], fam["uniform"], fam["cauchy"], fam["alternating"]][: shape[0]]
+        X = torch.stack([T(r_, cplx) * sc_ for r_, sc_ in zip(rows, (1.0, 0.03, 2.0, 70.0))]).reshape(shape)
+        cfg = f"{cfgb},shape={'x'.join(map(str, shape))}"
+        try:
+            Y = con(X)
+            res.transitions += 1
+            check_power_items(res, which, cfg, X, Y, tg, which)
+            for j in (0, shape[0] - 1):
+                alone = con(X[j:j + 1])[0]
+                if float((alone - Y[j]).abs().max()) > 1e-4 * math.sqrt(tg) * (1 + float(Y[j].abs().max()) / math.sqrt(tg)):
+                    res.viol(which, cfg, "item-independent", f"item {j} of a batch of {shape[0]} large items differs from the item processed alone (max deviation {float((alone - Y[j]).abs().max()):.4g})")
+                    break
+        except Exception as e:  # noqa: BLE001
+            res.viol(which, cfg, "raises", f"{type(e).__name__}: {str(e)[:200]}")
     res.sample({"constraint": which, "target": tg, "complex": cplx, "vectors": sum(len(v) for v in vecs.values())})
 
 
